@@ -98,6 +98,10 @@ def lib_sweep_cases(rnd, n, stdlib):
         {"op": "analyze", "path": "/vi/test_x.py", "text": "def test_x(fa, fb):\n    pass\n"},
         {"op": "imported", "path": "/vi/conftest.py"}, {"op": "imported", "path": "/vi/a.py"}, {"op": "available", "path": "/vi/test_x.py"},
         {"op": "goto", "path": "/vi/test_x.py", "line": 0, "col": 11}, {"op": "cycles"}, {"op": "cli"}]})
+    # more analysed files than the text cache holds: the eviction at the end of an analysis runs
+    # (seed S28: removing entries while iterating over the same map)
+    cases.append({"id": 3000, "ops": [{"op": "analyze", "path": "/vbig/d%d/test_f%d.py" % (k % 7, k), "text": "def test_%d(x):\n    pass\n" % k}
+                                      for k in range(2010)] + [{"op": "evict"}, {"op": "file_cache_keys"}]})
     return cases
 
 
